@@ -18,7 +18,11 @@
 (*    InvalidParameter("parameters");                                      *)
 (*  - more / oneway / upgrade pass through the Send / Upgrade stubs        *)
 (*    unchanged (seen on the wire and by the implementation; oneway        *)
-(*    produces no reply frame).                                            *)
+(*    produces no reply frame);                                           *)
+(*  - mode "more2": a call sent with more and answered twice yields the    *)
+(*    implementation's two value tuples, each exactly (an optional present *)
+(*    in the first and absent in the second is absent; the first tuple is  *)
+(*    not altered by the arrival of the second).                           *)
 (* Values are judged by the emitted test program with a reference encoding *)
 (* derived from the description tree (harness, trusted); TLC judges the    *)
 (* dispositions and the conjunction per mode.                              *)
@@ -28,7 +32,7 @@ VARIABLE l
 TraceLog == ndJsonDeserialize("trace.ndjson")
 Ev(e) == l <= Len(TraceLog) /\ TraceLog[l].ev = e /\ l' = l + 1
 E == TraceLog[l]
-Modes == {"reply", "error", "unknown", "undecodable", "flag-more", "flag-oneway", "flag-upgrade"}
+Modes == {"reply", "error", "unknown", "undecodable", "flag-more", "flag-oneway", "flag-upgrade", "more2"}
 T08 == /\ Ev("C08") /\ E.mode \in Modes
        /\ E.result_ok
        /\ E.decode_ok      \* the generated Go types take the reference JSON encoding of the declared varlink types
